@@ -59,6 +59,16 @@ def parseEvent (t : String) : Option Event :=
 def parseEvents (s : String) : Option (List Event) :=
   if s == "-" || s == "" then some [] else (s.splitOn ",").mapM parseEvent
 
+/-- `S[e1;e2;…]`: a subscriber arrives and `e1 e2 …` happen inside the source's Subscribe -/
+def parseNEvent (t : String) : Option NEvent :=
+  if t.startsWith "S[" && t.endsWith "]" then
+    let inner := ((t.drop 2).toString.dropEnd 1).toString
+    (if inner == "" then some [] else (inner.splitOn ";").mapM parseEvent).map NEvent.subNested
+  else (parseEvent t).map NEvent.plain
+
+def parseNEvents (s : String) : Option (List NEvent) :=
+  if s == "-" || s == "" then some [] else (s.splitOn ",").mapM parseNEvent
+
 def renderSErr : SErr → String
   | .user n => "u" ++ toString n
   | .nilDeref => "oe(nilderef)"
@@ -81,13 +91,13 @@ def justPre (c : Case) : Option (List (List Ev)) :=
   else none
 
 def run (c : Case) : String :=
-  match (justPre c).orElse (fun _ => parsePre (c.getD "pre" "-")), parseEvents (c.getD "ev" "-") with
+  match (justPre c).orElse (fun _ => parsePre (c.getD "pre" "-")), parseNEvents (c.getD "ev" "-") with
   | some pre, some evs =>
     match parseCfg c pre with
     | none => s!"res {c.id} unsupported"
     | some cfg =>
-      let s := Ro.Share.run cfg evs
-      let up := if (justPre c).isSome then [] else (Ro.Share.counters cfg {} evs).map fun p => s!"{p.1}/{p.2}"
+      let s := Ro.Share.nrun cfg evs
+      let up := if (justPre c).isSome then [] else (Ro.Share.ncounters cfg {} evs).map fun p => s!"{p.1}/{p.2}"
       s!"res {c.id} traces={renderTraces (Ro.Share.traces s)} up={renderList up} drops={renderList (s.drops.map renderEv)} unhandled=- escaped=-"
   | _, _ => s!"res {c.id} bad-case"
 
